@@ -600,6 +600,8 @@ class StmtMixin(object):
         if isinstance(v, RefV) and v.kind == 'obj':
             # some (other) object of the same class about which nothing is known
             return RefV(self.new_id(), 'obj', v.cls)
+        if isinstance(v, OpaqueV):
+            return OpaqueV(fresh(name, USort), v.what)        # some object of the same (unknown) kind
         if isinstance(v, (NoneV, ConstV)):
             raise Unsupported('loop assigns %s whose entry value is %r: declare its sort in Loop(havoc=...)' % (name, v))
         if isinstance(v, UnionV):
